@@ -426,6 +426,7 @@ func runC17(c *Config, r *Report) {
 	c17R12(ic, r)
 	c17R13(ic, r)
 	c17R14(ic, r)
+	c17R15(ic, r)
 
 	// ---- R17.4 gating -------------------------------------------------------------------
 	// importSrc: the branch taken when the predicate is true must not reach the read of the file.
